@@ -163,7 +163,14 @@ class Jacobian(object):
         else:
             col_slice = self._output_slices[wrt]
 
-        return self._subjac_from_meta(abs_key, meta, row_slice, col_slice, wrt_is_input, dtype)
+        subjac = self._subjac_from_meta(abs_key, meta, row_slice, col_slice, wrt_is_input, dtype)
+
+        # the shared metadata may still hold a value left in another dtype (complex step) by a
+        # previous jacobian of the same system, so make it match the requested dtype.
+        if subjac.info['val'] is not None:
+            subjac.set_dtype(dtype)
+
+        return subjac
 
     def _subjac_from_meta(self, key, meta, row_slice, col_slice, wrt_is_input, dtype,
                           src_inds_list=None, factor=None, src=None):
